@@ -19,7 +19,13 @@ def _engine(rec):
 
 
 def main(path):
+    import warnings
+
+    from hsim import batch
+
     core.assert_repo_import()
+    warnings.simplefilter("ignore")
+    batch.quiet_stdio()
     rec = core.read_replay(path)
     out = _engine(rec)(rec)
     want = rec.get("violation") or {}
